@@ -113,11 +113,14 @@ class World:
         req = un(q.q.pop(0))
         variant = e.src.enums['ReqTask'][req.variant]
         tasks = [req.f[0].v] if variant == 'Simple' else [c.v for c in deref_vec(req.f[0].v).cells]
-        for t in tasks:
+        for i, t in enumerate(tasks):
             elems = X.cmd_elements(e, inner_ctx(t))
+            if getattr(redis, 'wants_vecs', False): redis.vecs = X.cmd_element_vecs(e, inner_ctx(t))
             resp = redis.execute(e, elems, restore_fault if which == 'dst' else None)
             self.trace.append('%s answers %s' % (which, X.as_bytes(elems[0]).decode()))
             answer(e, t, resp)
+            hook = getattr(self, 'between_pipelined', None)
+            if hook and i + 1 < len(tasks): hook(which, X.as_bytes(elems[0]))
 
     def step_srcproxy(self):
         """the source proxy handles UMSYNC key: under its key lock it moves the key to the destination (if it still has
@@ -287,6 +290,7 @@ class ScanClient(PyObj):
     def __init__(self, redis, keys, env_batch): self.redis = redis; self.keys = keys; self.env_batch = env_batch
     def run(self, e, cmd):
         elems = [[c.v for c in deref_vec(x.v).cells] for x in deref_vec(cmd).cells]
+        if getattr(self.redis, 'wants_vecs', False): self.redis.vecs = [deref_vec(x.v) for x in deref_vec(cmd).cells]
         name = X.as_bytes(elems[0]).upper()
         if name == b'SCAN':
             cur = int(X.as_bytes(elems[1]))
